@@ -987,7 +987,23 @@ impl<'a> Writer<'a> {
                 }
             }
             V::Coord(a, b) => {
-                self.out.push_str(&format!("C({},{})", canon_num(*a), canon_num(*b)));
+                // legal respellings of a coordinate: a trailing zero / ".0" on either component
+                // (one more digit than the shortest form), blanks inside the parentheses
+                let mut comp = |w: &mut Self, x: f64, name: &'static str| -> String {
+                    let c = canon_num(x);
+                    if !c.contains('e') && !c.contains("inf") && !c.contains("NaN") && w.pick(name, 2) == 1 {
+                        if c.contains('.') {
+                            format!("{c}0")
+                        } else {
+                            format!("{c}.0")
+                        }
+                    } else {
+                        c
+                    }
+                };
+                let (ta, tb) = (comp(self, *a, "coord-lat-trailing-zero"), comp(self, *b, "coord-lng-trailing-zero"));
+                let sp = if self.pick("coord-inner-space", 2) == 1 { " " } else { "" };
+                self.out.push_str(&format!("C({sp}{ta}{sp},{sp}{tb}{sp})"));
             }
             V::XStr(t, s) => {
                 self.out.push_str(t);
